@@ -56,19 +56,20 @@ def spell_int(rng, v):
         name = {9: "tab", 10: "lf", 11: "vt", 12: "ff", 13: "cr"}[v]
         return rng.choice([name, name.upper(), name.capitalize()])
     q = rng.choice("'\"")
+    prefix = rng.choice("uU") if rng.random() < 0.1 else ""  # the documented u"..." spelling
     if how == "esc":
         e = {9: "\\t", 10: "\\n", 13: "\\r", 92: "\\\\", 39: "\\'", 34: '\\"'}[v]
-        return q + e + q
+        return prefix + q + e + q
     if how == "xesc":
-        return q + "\\x%02x" % v + q
+        return prefix + q + "\\x%02x" % v + q
     if how == "uesc":
-        return q + "\\u%04x" % v + q
+        return prefix + q + "\\u%04x" % v + q
     c = chr(v)
     if c == q:
         q = "'" if q == '"' else '"'
-    if c in ".…":  # '...' inside quotes would be rewritten by the constructor: stay out of that corner
+    if c in ".\u2026":  # '...' inside quotes would be rewritten by the constructor: stay out of that corner
         return str(v)
-    return q + c + q
+    return prefix + q + c + q
 
 
 def blanks(rng):
